@@ -348,8 +348,8 @@ class Model:
                             and not n.attr.startswith('__'):
                         if n.attr in everywhere or (known is not None and n.attr in known):
                             continue
-                        if n.attr.lstrip('_') in c.methods and c.methods[n.attr.lstrip('_')].is_property:
-                            continue
+                        if (n.attr,) in self.projections():
+                            continue        # read through as the property it backs (a getter that only returns it)
                         out.add(n.attr)
         self._new_storage = out
         return out
